@@ -1,8 +1,8 @@
 (* Extraction of the executable model to OCaml. ExtrOcamlBasic only: bool, option, prod, list, unit,
    sumbool map to OCaml's; nat, N, Z, positive, ascii and string stay Coq inductives. *)
 From Verif Require Import Base.Bytes Model.Types Model.GoLite Model.Sigs Model.Detectors Model.Text Model.Tree
-  Model.Tar Model.Zip Model.Ole Model.Mkv Model.Json Model.Lines Model.Charset Model.Meta Model.Reader Model.Detect
-  Gen.TreeData Gen.SigData Gen.Tables Spec.SpecText Spec.JsonJudge Spec.JsonSubtype Spec.SpecCharset Spec.SpecTar Spec.SpecZip.
+  Model.Tar Model.Zip Model.Ole Model.Mkv Model.Json Model.Lines Model.Charset Model.Meta Model.Reader Model.Mime Model.Detect
+  Gen.TreeData Gen.SigData Gen.Tables Spec.SpecText Spec.JsonJudge Spec.JsonSubtype Spec.SpecCharset Spec.SpecTar Spec.SpecZip Spec.SpecMime.
 From Verif Require Legacy.JsonLegacy.
 Require Import ExtrOcamlBasic.
 
@@ -14,6 +14,7 @@ Extraction "model.ml"
   parse legacy_parse json_helper legacy_json_helper queries_of tokens maxrec
   ndjson drop_last_line scan_lines sv_model csv_records
   from_bom from_plain latin ascii utf8_valid full_rune boms text_chars tc_T tc_I
+  c02_judge is_model normal_media_type names_of
   detect_reader_read reader_consumed
   from_meta_element xml_encoding html_prescan from_html lower_bytes
   c11_judge up_to_trunc well_formed
